@@ -24,13 +24,13 @@ def build_bins():
     return out
 
 
-def one(exe, flav, seed, nth, nops, rounds):
+def one(exe, flav, seed, nth, nops, rounds, limit=150):
     env = dict(os.environ)
     env["TSAN_OPTIONS"] = "halt_on_error=0:exitcode=66:report_signal_unsafe=0:history_size=4"
     env["ASAN_OPTIONS"] = "detect_leaks=0:abort_on_error=0:exitcode=99"
     env["UBSAN_OPTIONS"] = "halt_on_error=1:exitcode=98"
     try:
-        r = subprocess.run([exe, str(seed), str(nth), str(nops), str(rounds)], env=env, stdout=subprocess.PIPE, stderr=subprocess.PIPE, text=True, errors="replace", timeout=1200)
+        r = subprocess.run([exe, str(seed), str(nth), str(nops), str(rounds)], env=env, stdout=subprocess.PIPE, stderr=subprocess.PIPE, text=True, errors="replace", timeout=limit)
     except subprocess.TimeoutExpired:
         return {"timeout": True}
     res = {"rc": r.returncode, "races": [], "json": None, "stderr_tail": ""}
@@ -58,9 +58,19 @@ def run(prop, tier, seed, jobs):
         for (nth, nops, rounds) in plans:
             if flav == "asan":
                 rounds = max(2, rounds // 2)
-            res = one(bins[flav], flav, seed * 100 + nth, nth, nops, rounds)
+            limit = 90 if tier == "quick" else 600
+            res = one(bins[flav], flav, seed * 100 + nth, nth, nops, rounds, limit)
             if res.get("timeout"):
-                inconclusive.append("%s run with %d threads timed out" % (flav, nth)); continue
+                # the single-threaded reference of the same scripts runs first in the same process, so a run that does not
+                # finish is stuck in the concurrent phase; it is a violation only if it recurs
+                again = sum(1 for k in range(2) if one(bins[flav], flav, seed * 100 + nth, nth, nops, rounds, limit).get("timeout"))
+                if again == 2:
+                    d = os.path.join(ROOT, "replays", "C18"); os.makedirs(d, exist_ok=True)
+                    p = os.path.join(d, "%s-%d-%d-hang.json" % (flav, nth, seed))
+                    json.dump({"property": "C18", "flavour": flav, "seed": seed * 100 + nth, "threads": nth, "ops": nops, "rounds": rounds, "symptom": "hang", "detail": "no result within %d s (normal: a few seconds), three times" % limit}, open(p, "w"), indent=1)
+                    violations.append({"symptom": "hang", "detail": "%d threads: the concurrent phase did not finish within %d s in three runs (the single-threaded reference of the same scripts finished)" % (nth, limit), "replay": p})
+                    break
+                inconclusive.append("%s run with %d threads timed out once" % (flav, nth)); continue
             j = res.get("json")
             if j:
                 evals += j["evaluations"]; overlaps += j["overlaps"]; distinct += j["evaluations"] if j["overlaps"] else 0
@@ -115,7 +125,7 @@ def replay(prop, path):
     bad = 0
     for k in range(5):
         r = one(bins[d["flavour"]], d["flavour"], d["seed"], d["threads"], d["ops"], d["rounds"])
-        if r.get("races") or r.get("sanitizer") or (r.get("json") or {}).get("mismatches") or not r.get("json"):
+        if r.get("timeout") or r.get("races") or r.get("sanitizer") or (r.get("json") or {}).get("mismatches") or not r.get("json"):
             bad += 1
     print("%d of 5 runs of the recorded configuration fail" % bad)
     if bad:
